@@ -428,6 +428,9 @@ func ruleFanoutWho(rule string) ruleFn {
 							ok = true
 						}
 					}
+					if !ok && issuerAllowed(c.P, fn, fanoutCallers[callee], 0) {
+						ok = true
+					}
 					if ok {
 						c.OK(rule, key, c.P.InstrPos(in), "allow-listed issuer", false)
 					} else {
